@@ -943,6 +943,8 @@ impl CommitEnv for LsmCommitEnv {
 		let enc_bytes = processed_batch.encode()?;
 		let mut wal_guard = self.core.wal.write();
 		wal_guard.append(&enc_bytes)?;
+		#[cfg(feature = "verif")]
+		crate::verif::note("wal.append", seq_num, wal_guard.get_active_log_number());
 		if sync {
 			wal_guard.sync()?;
 		}
@@ -956,6 +958,8 @@ impl CommitEnv for LsmCommitEnv {
 		// Try to add to current memtable
 		let result = {
 			let active_memtable = self.core.active_memtable.read()?;
+			#[cfg(feature = "verif")]
+			crate::verif::note("apply.memtable", batch.starting_seq_num, active_memtable.get_wal_number());
 			active_memtable.add(batch)
 		};
 
@@ -978,6 +982,8 @@ impl CommitEnv for LsmCommitEnv {
 				crate::verif::yield_sync("apply.post_rotate");
 				// Retry on new memtable - must succeed
 				let active_memtable = self.core.active_memtable.read()?;
+				#[cfg(feature = "verif")]
+				crate::verif::note("apply.memtable", batch.starting_seq_num, active_memtable.get_wal_number());
 				active_memtable.add(batch)
 			}
 			Err(e) => Err(e),
